@@ -139,6 +139,8 @@ HEADERS = {
     'pairvec': ('({T0}, Vec<{T1}>)', ['T0', 'T1']),
     'dup': ('({T0}, {T0})', ['T0']),
     'w': ('W<{T0}, {N0}>', ['T0', 'N0']),
+    'pairbox': ('({T0}, Box<{T1}>)', ['T0', 'T1']),
+    'refpair': ("&{L0} ({T0}, Box<{T1}>)", ['L0', 'T0', 'T1']),
 }
 SPELL = {'T0': ['T', 'U', 'A', 'Elem', 'Tr', 'T0'], 'T1': ['U', 'T', 'B', 'Other', 'V', 'G'],
          'N0': ['N', 'M', 'LEN'], 'L0': ["'a", "'b", "'x"]}
@@ -206,13 +208,16 @@ def gen_family(rng, hname, nblocks, tag0, key_choices=None, canonical_names=Fals
     return blocks
 
 
+UNSIZED_OK = {'{T0}': ['T0'], 'Box<{T0}>': ['T0'], "&{L0} {T0}": ['T0'], '({T0}, Box<{T1}>)': ['T1'], "&{L0} ({T0}, Box<{T1}>)": ['T1']}
+
+
 def instances(self_fmt, used, rng, limit=6, unsized=False):
     """ground instantiations of a header over the atoms: list of dict slot -> text"""
     pools = []
     for s in used:
         if s[0] == 'T':
             pool = list(ATOMS[:3]) + ['Vec<X0>']
-            if unsized:
+            if unsized and s in UNSIZED_OK.get(self_fmt, []):
                 pool += ['str', '[u8]']
             pools.append(pool)
         elif s[0] == 'N':
@@ -318,6 +323,36 @@ def gen_case(rng, kind):
         for i, b in enumerate(blocks):
             b.tag = 'b%d' % i
         probes, world = build_world_and_probes(rng, blocks, headers, unsized=True, nprobes=10)
+        return Case(kind, 'K', '', blocks, probes, world)
+    elif kind == 'unsized2':
+        # a family dispatched on two parameters; some blocks relax Sized on the boxed one,
+        # inline or in the where-clause; a sibling may leave that key as a wildcard
+        h = rng.choice(['pairbox', 'pairbox', 'refpair'])
+        self_fmt, used = HEADERS[h]
+        tr = rng.choice(['D', 'D2'])
+        rows = rng.choice([
+            [('GA', 'GA'), ('GA', 'GB'), ('GB', None)],
+            [('GA', 'GA'), ('GB', 'GA')],
+            [('GA', None), ('GB', 'GC'), ('GC', 'GA')],
+            [('GA', 'GA'), ('GA', 'GB'), ('GB', 'GB'), ('GC', None)],
+        ])
+        blocks = []
+        for i, (g0, g1) in enumerate(rows):
+            slots = mk_slots(rng, used)
+            order = list(slots); rng.shuffle(order)
+            order = [x for x in order if x[0] == 'L'] + [x for x in order if x[0] != 'L']
+            bounds = [('{T0}', tr, {'G': g0}, rng.choice(['inline', 'where'])),
+                      ('{T1}', tr, ({'G': g1} if g1 else {}), rng.choice(['inline', 'where']))]
+            rng.shuffle(bounds)
+            relaxed = {}
+            r = rng.random()
+            if r < 0.4:
+                relaxed['T1'] = 'inline'
+            elif r < 0.8:
+                relaxed['T1'] = 'where'
+            blocks.append(Block({x: slots[x] for x in order}, None, self_fmt, bounds, 'b%d' % i, relaxed=relaxed))
+        headers = [HEADERS[h]] * len(blocks)
+        probes, world = build_world_and_probes(rng, blocks, headers, unsized=True, nprobes=14, impl_rate=0.9)
         return Case(kind, 'K', '', blocks, probes, world)
     elif kind == 'multi':
         hs = rng.choice([('vec', 'opt'), ('vec', 'pair'), ('box', 'arr', 'opt'), ('pair', 'vec', 'opt'), ('ref', 'vec')])
